@@ -117,6 +117,7 @@ class Summary(object):
         self.raises = []
         self.params = {}
         self.unsupported = []
+        self.while_loops = []
 
     # --- queries --------------------------------------------------------------------------------
     def writes(self, field=None, obj=None):
@@ -565,6 +566,13 @@ class Evaluator(object):
         loop.guard0 = list(bs.guard)
         self.exec_block(s.body, bs, frame)
         frame.loops.pop()
+        loop.pre = pre
+        loop.lid = lid
+        loop.names = list(names)
+        loop.body_state = bs
+        loop.entry_guard = tuple(st.guard)
+        loop.entry_graw = tuple(st.graw)
+        self.summary.while_loops.append(loop)
         for n in names:
             st.locals[n] = ("wlout", n, lid, pre.get(n, ("undef",)))
         for (objsrc, fname) in fields:
